@@ -47,12 +47,22 @@ bool fault_is_vio (int kind) { return kind >= F_VIO_READ_ZERO && kind <= F_VIO_L
 bool fault_is_benign (int kind) { return kind >= F_FD_SHORT_READ && kind <= F_EINTR_CLOSE ; }
 
 extern "C" ssize_t __real_write (int fd, const void *buf, size_t n) ;
+extern "C" void __sanitizer_print_stack_trace (void) ;
+static int64_t g_ring [32][5] ; static unsigned g_ring_n ;
 extern "C" void simos_die (int code, const char *why)
 {	// Budget overrun / infrastructure death: report on stderr (captured per worker) and leave.
 	char buf [256] ;
 	if (g_os) { g_os->in_lib = false ; g_os->op_budget = 0 ; }
 	int n = snprintf (buf, sizeof (buf), "SIMDIE code=%d why=%s\n", code, why ? why : "") ;
 	if (__real_write (2, buf, n) < 0) {}
+	if (code == 78)
+	{	__sanitizer_print_stack_trace () ;
+		for (unsigned k = g_ring_n > 24 ? g_ring_n - 24 : 0 ; k < g_ring_n ; k++)
+		{	int64_t *e = g_ring [k & 31] ;
+			n = snprintf (buf, sizeof (buf), "  io[%u] class=%lld a=%lld b=%lld ret=%lld fault=%s\n", k, (long long) e [0], (long long) e [1], (long long) e [2], (long long) e [3], fault_name ((int) e [4])) ;
+			if (__real_write (2, buf, n) < 0) {}
+		}
+	}
 	_exit (code) ;
 }
 
@@ -64,6 +74,7 @@ void SimOS::reset ()
 	ledger.clear () ; lib_allocs = lib_alloc_bytes = 0 ; audit_errors.clear () ;
 	trace = 1469598103934665603ULL ; st = IoStats () ; any_fault_fired = false ; last_fault_kind = F_NONE ;
 	chatter = 0 ;
+	jmp_armed = false ; record_io = false ; io_log.clear () ; have_fault_snapshot = false ; fault_snapshot.clear () ;
 }
 
 SimFileP SimOS::file (const std::string &name, bool create)
@@ -87,12 +98,15 @@ void SimOS::begin_op (int task, int op, const char *api, int64_t budget)
 {	cur_task = task ; cur_op = op ; cur_api = api ; op_io = 0 ; op_budget = fd_chunks.empty () ? budget : 0 ;
 	in_lib = true ;
 }
-void SimOS::end_op () { in_lib = false ; op_budget = 0 ; }
+void SimOS::end_op () { in_lib = false ; op_budget = 0 ; jmp_armed = false ; }
 
 Fault *SimOS::io_event (int cls, bool vio)
 {	op_io ++ ; st.steps ++ ; st.by_class [cls] ++ ;
 	if (op_budget > 0 && op_io > op_budget)
+	{	if (jmp_armed) { jmp_armed = false ; in_lib = false ; op_budget = 0 ; longjmp (jb, 1) ; }
 		simos_die (78, cur_api) ;
+	}
+	if (record_io && cur_task >= 0) io_log.push_back (IoRec { cur_task, cur_op, op_io, cls, vio }) ;
 	for (auto &f : faults)
 	{	if (f.task != cur_task) continue ;
 		if (!f.armed)
@@ -105,7 +119,13 @@ Fault *SimOS::io_event (int cls, bool vio)
 		if (fc != -1 && fc != cls) continue ;
 		if (!f.persistent && f.fired > 0) continue ;
 		f.fired ++ ; st.faults_fired [f.kind] ++ ;
-		if (!fault_is_benign (f.kind)) { any_fault_fired = true ; last_fault_kind = f.kind ; }
+		if (!fault_is_benign (f.kind))
+		{	if (!have_fault_snapshot)
+			{	have_fault_snapshot = true ;
+				for (auto &kv : ns) fault_snapshot [kv.first] = kv.second->data ;
+			}
+			any_fault_fired = true ; last_fault_kind = f.kind ;
+		}
 		return &f ;
 	}
 	return nullptr ;
@@ -136,7 +156,8 @@ std::string norm_path (const char *p)
 }
 
 static inline void tr_io (int kind, int64_t a, int64_t b, int64_t r, int flt)
-{	if (!g_os->trace_io_enabled) return ;
+{	int64_t *e = g_ring [g_ring_n ++ & 31] ; e [0] = kind ; e [1] = a ; e [2] = b ; e [3] = r ; e [4] = flt ;
+	if (!g_os->trace_io_enabled) return ;
 	g_os->trace_mix (0x1000 + kind) ; g_os->trace_mix ((uint64_t) a) ; g_os->trace_mix ((uint64_t) b) ; g_os->trace_mix ((uint64_t) r) ; g_os->trace_mix (flt) ;
 }
 
